@@ -2,18 +2,20 @@ from drv_node import NodeSuite
 from drv_process import ProcessSuite
 from drv_sequencer import SequencerC16
 from drv_handler import InvalidationSuite
+from drv_appmember import AppMemberSuite
 import props.c02 as base
 
 
 class Prop:
     ID = 'C16'
     GEN = ['enums', 'node', 'proc', 'seq']
-    MODEL_TARGETS = ['model/Node.vo', 'model/NodeSpec.vo', 'model/ProcStatus.vo', 'model/Sequencer.vo', 'model/FailureHandler.vo']
-    TARGETS = ['props/C16.vo', 'props/C16term.vo', 'props/C11.vo', 'props/C12.vo']
+    MODEL_TARGETS = ['model/Node.vo', 'model/NodeSpec.vo', 'model/ProcStatus.vo', 'model/Sequencer.vo', 'model/FailureHandler.vo',
+                     'model/AppMember.vo']
+    TARGETS = ['props/C16.vo', 'props/C16term.vo', 'props/C16app.vo', 'props/C11.vo', 'props/C12.vo']
     PROPS_FILE = 'props/C16.v'
-    PROPS_FILES = ['props/C16.v', 'props/C16term.v']
+    PROPS_FILES = ['props/C16.v', 'props/C16term.v', 'props/C16app.v']
     SUITES = [NodeSuite(evals={'mismatches': 'mismatches', 'spec_violations': 'spec_violations_c16k', 'known:set-state-livelock': 'known_c16_livelock'}),
-              ProcessSuite(), SequencerC16(), InvalidationSuite()]
+              ProcessSuite(), SequencerC16(), InvalidationSuite(), AppMemberSuite()]
     RULE = base.Prop.RULE
     ASSUMPTIONS = base.Prop.ASSUMPTIONS
     TRUSTED = base.Prop.TRUSTED
